@@ -1,19 +1,29 @@
 /-
 Lemmas.SqrtBound — the correctly rounded `F64.sqrt` and the error analysis of `TwoFloat.sqrt`
-(Karp–Markstein: `y = hi · (1/√hi)`, one double-word Newton correction).
+(Karp–Markstein: `x' = 1/√hi`, `y = hi·x'`, one double-word Newton correction `y + (x - y²).hi·(x'/2)`), and of
+`TwoFloat.hypot`.
 
-* §1 `F64.sqrt_round_nat`, `F64.sqrt_spec`: the model's `F64.sqrt` on a positive finite input returns the
-  nearest representable number to `√(n·2^1074)` (integer statement on squares), `F64.sqrt_real_err` the same
-  with `Real.sqrt`: relative error at most `u = 2^-53`.
-* §2 the real-number error analysis (`newton_core`, `newton_denorm`).
-* §3 the `F64`-level steps and `TwoFloat.sqrt_val`.
+* §1 `F64.sqrt_round_nat`, `F64.sqrtRound_spec`, `F64.sqrt_spec`: the model's `F64.sqrt` on a positive finite input
+  returns the nearest representable number to `√(n·2^1074)` (integer statement on squares); `F64.sqrt_real_err`: the
+  same with `Real.sqrt`, relative error at most `u = 2^-53`.
+* §2 the real-number error analysis.  Normalised by `√hi`: `xh ≈ 1` (error `2.001u`: two roundings), `yh ≈ xh` (one
+  rounding), `sh = √(1 + lo/hi)` (`|sh - 1| ≤ 0.5001u`).  With `A = sh - yh`, `B = (sh + yh)·xh/2 - 1` and the ideal
+  correction `T = (sh² - yh²)·xh/2 = A(1 + B)`:  `yh + T - sh = A·B` (`newton_core`), `|A| ≤ 3.5021u`, `|B| ≤ 3.753u`,
+  and the computed correction has relative error `2.001u` (`corr_err`: `3u²+13u³` of the double-word subtraction,
+  `u` for taking the high word, `u` for the final product, halving exact) plus half a unit `2^-1075` absolute
+  (underflow of the correction is harmless).  Total `13.15u² + 7.01u² + … ≤ 20.2u²`, `21u²` after denormalisation
+  (`newton_denorm`).
+* §3 the `F64`-level steps (`recip_pos`, `sqrt_xy`, `mul_half`, `sqrt_tail`) and `TwoFloat.sqrt_val`:
+  for valid `x > 0` with `x.hi ∈ [2^-900, 2^1000]` the result is valid, well-formed and within `21u²` of `√x`.
+* §4 `TwoFloat.hypot_val`: `26u²` for high words in `[2^-450, 2^450]`.
 -/
 import TFV.Lemmas.DivInv
 import TFV.Properties.C03b
+import TFV.Properties.C13
 import Mathlib.Analysis.Real.Sqrt
 import Mathlib.Data.Nat.Sqrt
 
-set_option exponentiation.threshold 3000
+set_option exponentiation.threshold 3300
 
 namespace F64
 
@@ -194,21 +204,19 @@ theorem sqrt_near_one {u s : ℝ} (hu0 : 0 < u) (hu : u ≤ 1 / 2 ^ 20) (hs0 : 0
   rw [abs_le]
   constructor
   · by_contra hc
-    push_neg at hc
+    rw [not_le] at hc
     have hp : 0 < 1 - 0.5001 * u - s := by linarith
     nlinarith [mul_pos hp hs0, mul_pos hp hp, mul_pos hu0 hu0]
   · by_contra hc
-    push_neg at hc
+    rw [not_le] at hc
     have hp : 0 < s - 1 - 0.5001 * u := by linarith
     nlinarith [mul_pos hp hs0, mul_pos hp hp, mul_pos hu0 hu0]
 
-/-- **the Newton step in normalised variables** (`√hi = 1`): `xh ≈ 1/√hi`, `yh ≈ √hi`, `sh = √(hi+lo)`,
-`ch` the computed correction, which approximates `(sh² - yh²)·xh/2` with relative error `ρ` and absolute error `α`. -/
-theorem newton_core {u xh yh sh ch ρ α : ℝ} (hu0 : 0 < u) (hu : u ≤ 1 / 2 ^ 20)
-    (hx : |xh - 1| ≤ 2.001 * u) (hy : |yh - xh| ≤ u * xh) (hs0 : 0 < sh) (hs : |sh ^ 2 - 1| ≤ u)
-    (hρ0 : 0 ≤ ρ) (hρ : ρ ≤ 2.001 * u)
-    (hc : |ch - (sh ^ 2 - yh ^ 2) * xh / 2| ≤ ρ * |(sh ^ 2 - yh ^ 2) * xh / 2| + α) :
-    |yh + ch - sh| ≤ 20.2 * u ^ 2 + α := by
+/-- intermediate bounds of the Newton step in normalised variables -/
+theorem newton_aux {u xh yh sh : ℝ} (hu0 : 0 < u) (hu : u ≤ 1 / 2 ^ 20)
+    (hx : |xh - 1| ≤ 2.001 * u) (hy : |yh - xh| ≤ u * xh) (hs0 : 0 < sh) (hs : |sh ^ 2 - 1| ≤ u) :
+    |yh - 1| ≤ 3.002 * u ∧ |sh - yh| ≤ 3.5021 * u ∧ |(sh + yh) * xh / 2 - 1| ≤ 3.753 * u ∧
+      |(sh ^ 2 - yh ^ 2) * xh / 2| ≤ 3.5021 * u * (1 + 3.753 * u) := by
   have hu1 : u ≤ 1 / 1000000 := le_trans hu (by norm_num)
   have huu : 0 < u * u := mul_pos hu0 hu0
   obtain ⟨hx1, hx2⟩ := abs_le.1 hx
@@ -233,17 +241,923 @@ theorem newton_core {u xh yh sh ch ρ α : ℝ} (hu0 : 0 < u) (hu : u ≤ 1 / 2 
     rw [e, abs_le]
     constructor <;> nlinarith
   have hT : (sh ^ 2 - yh ^ 2) * xh / 2 = (sh - yh) * (1 + ((sh + yh) * xh / 2 - 1)) := by ring
-  have hR : yh + ch - sh = (sh - yh) * ((sh + yh) * xh / 2 - 1) + (ch - (sh ^ 2 - yh ^ 2) * xh / 2) := by ring
-  have hAB := abs_mul_le' hA hB
   have h1B : |1 + ((sh + yh) * xh / 2 - 1)| ≤ 1 + 3.753 * u := by
     refine le_trans (abs_add_le _ _) ?_
     rw [abs_one]; linarith
   have hTa : |(sh ^ 2 - yh ^ 2) * xh / 2| ≤ 3.5021 * u * (1 + 3.753 * u) := by
     rw [hT]; exact abs_mul_le' hA h1B
+  exact ⟨hyq, hA, hB, hTa⟩
+
+/-- **the Newton step in normalised variables** (`√hi = 1`): `xh ≈ 1/√hi`, `yh ≈ √hi`, `sh = √(hi+lo)`,
+`ch` the computed correction, which approximates `(sh² - yh²)·xh/2` with relative error `ρ` and absolute error `α`.
+`yh + ch - sh = A·B + (ch - T)` with `A = sh - yh`, `B = (sh + yh)·xh/2 - 1`, `T = A·(1 + B)` the ideal correction:
+`|A| ≤ 3.5021u`, `|B| ≤ 3.753u`, so the total is `(3.5021·3.753 + 2.001·3.5021 + …) u² ≤ 20.2 u²`. -/
+theorem newton_core {u xh yh sh ch ρ α : ℝ} (hu0 : 0 < u) (hu : u ≤ 1 / 2 ^ 20)
+    (hx : |xh - 1| ≤ 2.001 * u) (hy : |yh - xh| ≤ u * xh) (hs0 : 0 < sh) (hs : |sh ^ 2 - 1| ≤ u)
+    (hρ : ρ ≤ 2.001 * u)
+    (hc : |ch - (sh ^ 2 - yh ^ 2) * xh / 2| ≤ ρ * |(sh ^ 2 - yh ^ 2) * xh / 2| + α) :
+    |yh + ch - sh| ≤ 20.2 * u ^ 2 + α := by
+  have hu1 : u ≤ 1 / 1000000 := le_trans hu (by norm_num)
+  have huu : 0 < u * u := mul_pos hu0 hu0
+  obtain ⟨-, hA, hB, hTa⟩ := newton_aux hu0 hu hx hy hs0 hs
+  have hR : yh + ch - sh = (sh - yh) * ((sh + yh) * xh / 2 - 1) + (ch - (sh ^ 2 - yh ^ 2) * xh / 2) := by ring
+  have hAB := abs_mul_le' hA hB
   have hρT : ρ * |(sh ^ 2 - yh ^ 2) * xh / 2| ≤ 2.001 * u * (3.5021 * u * (1 + 3.753 * u)) :=
     mul_le_mul hρ hTa (abs_nonneg _) (by linarith)
   rw [hR]
   refine le_trans (abs_add_le _ _) ?_
   nlinarith
 
+/-- the computed correction `C` against the ideal one `Q·X2/U²` (`Q = S² - Y²`): relative `2.001u` plus half a unit -/
+theorem corr_err {U Q X2 Dv Dh C : ℝ} (hU : 0 < U) (hX2 : 0 < X2)
+    (h4 : 2 ^ 159 * |Dv * U - Q| ≤ (3 * 2 ^ 53 + 13) * |Q|)
+    (h5 : 2 ^ 53 * |Dh - Dv| ≤ |Dv|)
+    (h6 : 2 ^ 53 * |C * U - Dh * X2| ≤ 2 ^ 52 * U + |Dh * X2|) :
+    |C * U ^ 2 - Q * X2| ≤ 2.001 * (1 / 2 ^ 53) * |Q * X2| + U ^ 2 / 2 := by
+  have hq := abs_nonneg Q
+  have hdU : |Dv| * U ≤ |Q| + |Dv * U - Q| := by
+    have : |Dv| * U = |Dv * U| := by rw [abs_mul, abs_of_pos hU]
+    rw [this]
+    have := abs_add_le Q (Dv * U - Q)
+    rwa [add_sub_cancel] at this
+  have ha2U : |Dh - Dv| * U ≤ (1 / 2 ^ 53) * (|Dv| * U) := by
+    have : |Dh - Dv| ≤ (1 / 2 ^ 53) * |Dv| := by linarith
+    calc |Dh - Dv| * U ≤ (1 / 2 ^ 53) * |Dv| * U := mul_le_mul_of_nonneg_right this hU.le
+      _ = _ := by ring
+  have hdhU : |Dh| * U ≤ |Dv| * U + |Dh - Dv| * U := by
+    have := abs_add_le Dv (Dh - Dv)
+    rw [add_sub_cancel] at this
+    nlinarith
+  have e : C * U ^ 2 - Q * X2 = (C * U - Dh * X2) * U + (Dh - Dv) * U * X2 + (Dv * U - Q) * X2 := by ring
+  have t1 : |(C * U - Dh * X2) * U| = |C * U - Dh * X2| * U := by rw [abs_mul, abs_of_pos hU]
+  have t2 : |(Dh - Dv) * U * X2| = |Dh - Dv| * U * X2 := by
+    rw [abs_mul, abs_mul, abs_of_pos hU, abs_of_pos hX2]
+  have t3 : |(Dv * U - Q) * X2| = |Dv * U - Q| * X2 := by rw [abs_mul, abs_of_pos hX2]
+  have t4 : |Dh * X2| = |Dh| * X2 := by rw [abs_mul, abs_of_pos hX2]
+  have t5 : |Q * X2| = |Q| * X2 := by rw [abs_mul, abs_of_pos hX2]
+  rw [t4] at h6
+  rw [e, t5]
+  refine le_trans (abs_add_le _ _) ?_
+  refine le_trans (add_le_add_left (abs_add_le _ _) _) ?_
+  rw [t1, t2, t3]
+  -- everything is bounded by multiples of `|Q|`, then multiplied by `X2`
+  have b3 : |Dv * U - Q| ≤ ((3 * 2 ^ 53 + 13) / 2 ^ 159) * |Q| := by
+    rw [div_mul_eq_mul_div, le_div_iff₀ (by positivity)]; linarith
+  have b2 : |Dh - Dv| * U ≤ (1 / 2 ^ 53) * (1 + (3 * 2 ^ 53 + 13) / 2 ^ 159) * |Q| := by nlinarith
+  have b1 : |Dh| * U ≤ (1 + 1 / 2 ^ 53) * (1 + (3 * 2 ^ 53 + 13) / 2 ^ 159) * |Q| := by nlinarith
+  have c3 := mul_le_mul_of_nonneg_right b3 hX2.le
+  have c2 := mul_le_mul_of_nonneg_right b2 hX2.le
+  have c1 := mul_le_mul_of_nonneg_right b1 hX2.le
+  have c0 : |C * U - Dh * X2| * U ≤ U ^ 2 / 2 + (1 / 2 ^ 53) * (|Dh| * U * X2) := by
+    have : |C * U - Dh * X2| ≤ U / 2 + (1 / 2 ^ 53) * (|Dh| * X2) := by linarith
+    calc |C * U - Dh * X2| * U ≤ (U / 2 + (1 / 2 ^ 53) * (|Dh| * X2)) * U :=
+          mul_le_mul_of_nonneg_right this hU.le
+      _ = _ := by ring
+  have hqx : 0 ≤ |Q| * X2 := mul_nonneg hq hX2.le
+  linarith
+
+/-- `|Dh·X2|` against `|Q·X2|` -/
+theorem dh_bound {U Q X2 Dv Dh : ℝ} (hU : 0 < U) (hX2 : 0 < X2)
+    (h4 : 2 ^ 159 * |Dv * U - Q| ≤ (3 * 2 ^ 53 + 13) * |Q|)
+    (h5 : 2 ^ 53 * |Dh - Dv| ≤ |Dv|) :
+    |Dh * X2| * U ≤ 1.001 * |Q * X2| := by
+  have hq := abs_nonneg Q
+  have hdU : |Dv| * U ≤ |Q| + |Dv * U - Q| := by
+    have : |Dv| * U = |Dv * U| := by rw [abs_mul, abs_of_pos hU]
+    rw [this]
+    have := abs_add_le Q (Dv * U - Q)
+    rwa [add_sub_cancel] at this
+  have ha2U : |Dh - Dv| * U ≤ (1 / 2 ^ 53) * (|Dv| * U) := by
+    have : |Dh - Dv| ≤ (1 / 2 ^ 53) * |Dv| := by linarith
+    calc |Dh - Dv| * U ≤ (1 / 2 ^ 53) * |Dv| * U := mul_le_mul_of_nonneg_right this hU.le
+      _ = _ := by ring
+  have hdhU : |Dh| * U ≤ |Dv| * U + |Dh - Dv| * U := by
+    have := abs_add_le Dv (Dh - Dv)
+    rw [add_sub_cancel] at this
+    nlinarith
+  have b3 : |Dv * U - Q| ≤ ((3 * 2 ^ 53 + 13) / 2 ^ 159) * |Q| := by
+    rw [div_mul_eq_mul_div, le_div_iff₀ (by positivity)]; linarith
+  have b1 : |Dh| * U ≤ 1.001 * |Q| := by nlinarith
+  have c1 := mul_le_mul_of_nonneg_right b1 hX2.le
+  rw [abs_mul, abs_mul, abs_of_pos hX2]
+  linarith
+
+/-- normalisation, part 1: `X·Sh ≈ U²` from `r ≈ Sh`, `X·r ≈ U²` -/
+theorem norm_x {U Sh r X : ℝ} (hU : 0 < U) (hSh0 : 0 < Sh)
+    (h1 : 2 ^ 53 * |r - Sh| ≤ Sh) (h2 : 2 ^ 53 * |X * r - U ^ 2| ≤ U ^ 2) :
+    0 < X ∧ |X * Sh / U ^ 2 - 1| ≤ 2.001 * (1 / 2 ^ 53) := by
+  have hU2 : 0 < U ^ 2 := by positivity
+  have a1 : |r - Sh| ≤ (1 / 2 ^ 53) * Sh := by linarith
+  obtain ⟨a1l, a1u⟩ := abs_le.1 a1
+  have hr0 : 0 < r := by linarith
+  have a2 : |X * r - U ^ 2| ≤ (1 / 2 ^ 53) * U ^ 2 := by linarith
+  obtain ⟨a2l, a2u⟩ := abs_le.1 a2
+  have hXr : 0 < X * r := by linarith
+  have hX0 : 0 < X := (mul_pos_iff_of_pos_right hr0).1 hXr
+  have hz : |X * Sh - U ^ 2| ≤ 2.001 * (1 / 2 ^ 53) * U ^ 2 := by
+    have e : X * Sh - U ^ 2 = (X * r - U ^ 2) + X * (Sh - r) := by ring
+    have t : |X * (Sh - r)| ≤ (1 / 2 ^ 53) * (X * Sh) := by
+      rw [abs_mul, abs_of_pos hX0, abs_sub_comm]
+      calc X * |r - Sh| ≤ X * ((1 / 2 ^ 53) * Sh) := mul_le_mul_of_nonneg_left a1 hX0.le
+        _ = _ := by ring
+    have h := abs_add_le (X * r - U ^ 2) (X * (Sh - r))
+    rw [← e] at h
+    have hb : |X * Sh - U ^ 2| ≤ (1 / 2 ^ 53) * U ^ 2 + (1 / 2 ^ 53) * (X * Sh) := by linarith
+    obtain ⟨b1, b2⟩ := abs_le.1 hb
+    rw [abs_le]; constructor <;> linarith
+  refine ⟨hX0, ?_⟩
+  have e : X * Sh / U ^ 2 - 1 = (X * Sh - U ^ 2) / U ^ 2 := by field_simp
+  rw [e, abs_div, abs_of_pos hU2, div_le_iff₀ hU2]; exact hz
+
+/-- normalisation, part 2: `Y/Sh ≈ X·Sh/U²` -/
+theorem norm_y {U H Sh X Y : ℝ} (hU : 0 < U) (hSh0 : 0 < Sh) (hSh : Sh ^ 2 = H * U)
+    (h3 : 2 ^ 53 * |Y * U - H * X| ≤ H * X) :
+    |Y / Sh - X * Sh / U ^ 2| ≤ (1 / 2 ^ 53) * (X * Sh / U ^ 2) := by
+  have hUS : 0 < U * Sh := mul_pos hU hSh0
+  have hHe : H = Sh ^ 2 / U := by rw [hSh]; field_simp
+  have e1 : Y / Sh - X * Sh / U ^ 2 = (Y * U - H * X) / (U * Sh) := by
+    rw [hHe]; field_simp
+  have e2 : X * Sh / U ^ 2 = (H * X) / (U * Sh) := by
+    rw [hHe]; field_simp
+  rw [e1, e2, abs_div, abs_of_pos hUS, ← mul_div_assoc, div_le_div_iff_of_pos_right hUS]
+  linarith
+
+/-- normalisation, part 3: `(S/Sh)² ≈ 1` -/
+theorem norm_s {U H L Sh S : ℝ} (hU : 0 < U) (hH : 0 < H) (hSh : Sh ^ 2 = H * U)
+    (hS : S ^ 2 = (H + L) * U) (hL : 2 ^ 53 * |L| ≤ H) :
+    |(S / Sh) ^ 2 - 1| ≤ 1 / 2 ^ 53 := by
+  have e : (S / Sh) ^ 2 - 1 = L / H := by
+    rw [div_pow, hS, hSh]; field_simp; ring
+  rw [e, abs_div, abs_of_pos hH, div_le_iff₀ hH]; linarith
+
+/-- magnitude of the product `H·X`: `≈ Sh·U` -/
+theorem hx_range {U H Sh X : ℝ} (hU : 0 < U) (hSh0 : 0 < Sh) (hSh : Sh ^ 2 = H * U)
+    (hx : |X * Sh / U ^ 2 - 1| ≤ 2.001 * (1 / 2 ^ 53)) :
+    0.999 * (Sh * U) ≤ H * X ∧ H * X ≤ 1.001 * (Sh * U) := by
+  have hHe : H = Sh ^ 2 / U := by rw [hSh]; field_simp
+  have e : H * X = (Sh * U) * (X * Sh / U ^ 2) := by rw [hHe]; field_simp
+  obtain ⟨h1, h2⟩ := abs_le.1 hx
+  have hp : 0 < Sh * U := mul_pos hSh0 hU
+  rw [e]
+  constructor <;> nlinarith
+
+/-- magnitude of `Y` and of the ideal correction -/
+theorem y_range {U H L Sh S r X Y : ℝ} (hU : 0 < U) (hH : 0 < H)
+    (hSh0 : 0 < Sh) (hSh : Sh ^ 2 = H * U) (hS0 : 0 < S) (hS : S ^ 2 = (H + L) * U)
+    (hL : 2 ^ 53 * |L| ≤ H) (h1 : 2 ^ 53 * |r - Sh| ≤ Sh) (h2 : 2 ^ 53 * |X * r - U ^ 2| ≤ U ^ 2)
+    (h3 : 2 ^ 53 * |Y * U - H * X| ≤ H * X) :
+    0.999 * Sh ≤ Y ∧ Y ≤ 1.001 * Sh ∧ 2 ^ 51 * |(S ^ 2 - Y ^ 2) * (X / 2)| ≤ Sh * U ^ 2 := by
+  have hU2 : 0 < U ^ 2 := by positivity
+  have hU2S : 0 < U ^ 2 * Sh := mul_pos hU2 hSh0
+  obtain ⟨hX0, hx⟩ := norm_x hU hSh0 h1 h2
+  have hy := norm_y hU hSh0 hSh h3
+  have hs := norm_s hU hH hSh hS hL
+  obtain ⟨k1, -, -, k4⟩ := newton_aux (u := 1 / 2 ^ 53) (by positivity) (by norm_num) hx hy (div_pos hS0 hSh0) hs
+  obtain ⟨k1l, k1u⟩ := abs_le.1 k1
+  have hYl : 0.999 ≤ Y / Sh := by
+    have : (3.002 : ℝ) * (1 / 2 ^ 53) ≤ 0.001 := by norm_num
+    linarith
+  have hYu : Y / Sh ≤ 1.001 := by
+    have : (3.002 : ℝ) * (1 / 2 ^ 53) ≤ 0.001 := by norm_num
+    linarith
+  rw [le_div_iff₀ hSh0] at hYl
+  rw [div_le_iff₀ hSh0] at hYu
+  refine ⟨hYl, hYu, ?_⟩
+  have e1 : ((S / Sh) ^ 2 - (Y / Sh) ^ 2) * (X * Sh / U ^ 2) / 2
+      = (S ^ 2 - Y ^ 2) * (X / 2) / (U ^ 2 * Sh) := by field_simp
+  rw [e1, abs_div, abs_of_pos hU2S, div_le_iff₀ hU2S] at k4
+  have e2 : Sh * U ^ 2 = U ^ 2 * Sh := by ring
+  rw [e2]
+  have hn : (2 : ℝ) ^ 51 * (3.5021 * (1 / 2 ^ 53) * (1 + 3.753 * (1 / 2 ^ 53))) ≤ 1 := by norm_num
+  nlinarith
+
+/-- **the Newton step, denormalised.**  `Sh = √(H·U)`, `S = √((H+L)·U)` (scaled square roots of the high word and
+of the full argument), `r ≈ Sh`, `X ≈ U²/r`, `Y ≈ H·X/U`, `C ≈ (S² - Y²)·(X/2)/U²`.  The result `Y + C` is within
+`21 u²` of `S`. -/
+theorem newton_denorm {U H L Sh S r X Y C : ℝ} (hU : 0 < U) (hH : 0 < H)
+    (hSh0 : 0 < Sh) (hSh : Sh ^ 2 = H * U) (hS0 : 0 < S) (hS : S ^ 2 = (H + L) * U)
+    (hL : 2 ^ 53 * |L| ≤ H) (h1 : 2 ^ 53 * |r - Sh| ≤ Sh) (h2 : 2 ^ 53 * |X * r - U ^ 2| ≤ U ^ 2)
+    (h3 : 2 ^ 53 * |Y * U - H * X| ≤ H * X)
+    (hC : |C * U ^ 2 - (S ^ 2 - Y ^ 2) * (X / 2)| ≤ 2.001 * (1 / 2 ^ 53) * |(S ^ 2 - Y ^ 2) * (X / 2)| + U ^ 2 / 2)
+    (hbig : 2 ^ 107 ≤ S) : 2 ^ 106 * |Y + C - S| ≤ 21 * S := by
+  have hU2 : 0 < U ^ 2 := by positivity
+  have hU2S : 0 < U ^ 2 * Sh := mul_pos hU2 hSh0
+  obtain ⟨hX0, hx⟩ := norm_x hU hSh0 h1 h2
+  have hy := norm_y hU hSh0 hSh h3
+  have hs := norm_s hU hH hSh hS hL
+  have hc : |C / Sh - ((S / Sh) ^ 2 - (Y / Sh) ^ 2) * (X * Sh / U ^ 2) / 2|
+      ≤ 2.001 * (1 / 2 ^ 53) * |((S / Sh) ^ 2 - (Y / Sh) ^ 2) * (X * Sh / U ^ 2) / 2| + 1 / (2 * Sh) := by
+    have e1 : ((S / Sh) ^ 2 - (Y / Sh) ^ 2) * (X * Sh / U ^ 2) / 2
+        = (S ^ 2 - Y ^ 2) * (X / 2) / (U ^ 2 * Sh) := by field_simp
+    have e2 : C / Sh - (S ^ 2 - Y ^ 2) * (X / 2) / (U ^ 2 * Sh)
+        = (C * U ^ 2 - (S ^ 2 - Y ^ 2) * (X / 2)) / (U ^ 2 * Sh) := by field_simp
+    have e3 : 1 / (2 * Sh) = (U ^ 2 / 2) / (U ^ 2 * Sh) := by field_simp
+    rw [e1, e2, e3, abs_div, abs_div, abs_of_pos hU2S]
+    have h := div_le_div_of_nonneg_right hC hU2S.le
+    rw [add_div, mul_div_assoc] at h
+    exact h
+  have key := newton_core (u := 1 / 2 ^ 53) (by positivity) (by norm_num) hx hy (div_pos hS0 hSh0) hs
+    (le_refl _) hc
+  have hsn := sqrt_near_one (u := 1 / 2 ^ 53) (by positivity) (by norm_num) (div_pos hS0 hSh0) hs
+  obtain ⟨hs2, hs3⟩ := abs_le.1 hsn
+  have hSSh : 0.999 * Sh ≤ S := by
+    have : 0.999 ≤ S / Sh := by
+      have : (0.5001 : ℝ) * (1 / 2 ^ 53) ≤ 0.001 := by norm_num
+      linarith
+    rwa [le_div_iff₀ hSh0] at this
+  have e : Y / Sh + C / Sh - S / Sh = (Y + C - S) / Sh := by field_simp
+  rw [e, abs_div, abs_of_pos hSh0, div_le_iff₀ hSh0] at key
+  have e5 : (20.2 * (1 / 2 ^ 53) ^ 2 + 1 / (2 * Sh)) * Sh = 20.2 * (1 / 2 ^ 53) ^ 2 * Sh + 1 / 2 := by
+    field_simp
+  rw [e5] at key
+  have : (2 : ℝ) ^ 106 * (20.2 * (1 / 2 ^ 53) ^ 2 * Sh + 1 / 2) = 20.2 * Sh + 2 ^ 105 := by ring
+  nlinarith
+
 end SqrtReal
+
+/-! ## 3. the `F64`-level steps -/
+
+namespace F64
+
+open TwoFloat
+
+theorem rdI_natCast {p q : Nat} (hp : 0 < p) (hq : 0 < q) : rdI (p : Int) (q : Int) = ((roundQ p q : Nat) : Int) := by
+  unfold rdI
+  rw [Int.sign_eq_one_of_pos (by exact_mod_cast hp), Int.sign_eq_one_of_pos (by exact_mod_cast hq)]
+  simp
+
+theorem rqI_natCast (p q : Nat) : rqI (p : Int) q = ((roundQ p q : Nat) : Int) := by
+  unfold rqI
+  rw [if_neg (by omega), Int.natAbs_natCast]
+
+theorem one_toInt : F64.one.toInt = (unit : Int) := rfl
+
+theorem half_eq : f64lit 0x3fe0000000000000 = fin false (2 ^ 1073) := by decide +kernel
+
+/-- the reciprocal of a positive finite double in `[2^-452, 2^502]`: value and relative error -/
+theorem recip_pos {r : Nat} (h1 : 2 ^ 622 ≤ r) (h2 : r ≤ 2 ^ 1576) :
+    IsVal (F64.recip (fin false r)) ((roundQ (unit * unit) r : Nat) : Int) ∧
+    2 ^ 572 ≤ roundQ (unit * unit) r ∧ roundQ (unit * unit) r ≤ 2 ^ 1526 ∧
+    2 ^ 53 * (roundQ (unit * unit) r * r) ≤ 2 ^ 53 * (unit * unit) + unit * unit ∧
+    2 ^ 53 * (unit * unit) ≤ 2 ^ 53 * (roundQ (unit * unit) r * r) + unit * unit := by
+  have hr0 : 0 < r := lt_of_lt_of_le (by positivity) h1
+  have hUU : unit * unit = 2 ^ 2148 := by rw [unit_eq, ← Nat.pow_add]
+  have hup : roundQ (unit * unit) r ≤ 2 ^ 1526 := by
+    apply roundQ_le_of_le hr0 (rep_two_pow 1526)
+    rw [hUU]
+    calc 2 ^ 2148 = 2 ^ 1526 * 2 ^ 622 := by rw [← Nat.pow_add]
+      _ ≤ 2 ^ 1526 * r := Nat.mul_le_mul_left _ h1
+  have hlow : 2 ^ 572 ≤ roundQ (unit * unit) r := by
+    apply le_roundQ_of_le hr0 (rep_two_pow 572)
+    rw [hUU]
+    calc 2 ^ 572 * r ≤ 2 ^ 572 * 2 ^ 1576 := Nat.mul_le_mul_left _ h2
+      _ = 2 ^ 2148 := by rw [← Nat.pow_add]
+  have hrel := roundQ_rel_bounds (p := unit * unit) (q := r) hr0 (by
+    rw [hUU]
+    calc 2 ^ 52 * r ≤ 2 ^ 52 * 2 ^ 1576 := Nat.mul_le_mul_left _ h2
+      _ ≤ 2 ^ 2148 := by rw [← Nat.pow_add]; exact Nat.pow_le_pow_right (by norm_num) (by norm_num))
+  refine ⟨?_, hlow, hup, hrel.1, hrel.2⟩
+  have hfin : (fin false r).is_finite = true := rfl
+  have hy0 : (fin false r).toInt ≠ 0 := by
+    show ((r : Nat) : Int) ≠ 0
+    omega
+  have hd := div_spec (x := F64.one) (y := fin false r) rfl hfin hy0 (by
+    rw [one_toInt]
+    show roundQ ((unit : Int) * (unit : Int)).natAbs ((r : Nat) : Int).natAbs ≤ maxFin
+    rw [← Int.natCast_mul, Int.natAbs_natCast, Int.natAbs_natCast]
+    exact le_trans hup (le_trans (Nat.pow_le_pow_right (by norm_num) (by norm_num)) two_pow_2097_le_maxFin))
+  rw [one_toInt] at hd
+  have e : rdI ((unit : Int) * (unit : Int)) (fin false r).toInt = ((roundQ (unit * unit) r : Nat) : Int) := by
+    show rdI ((unit : Int) * (unit : Int)) ((r : Nat) : Int) = _
+    rw [← Int.natCast_mul]
+    exact rdI_natCast (Nat.mul_pos unit_pos unit_pos) hr0
+  rw [e] at hd
+  exact hd
+
+theorem mul_pos_val {a b : F64} {A B : Nat} (ha : IsVal a (A : Int)) (hb : IsVal b (B : Int))
+    (hm : roundQ (A * B) unit ≤ maxFin) : IsVal (F64.mul a b) ((roundQ (A * B) unit : Nat) : Int) := by
+  have h := mul_spec ha.1 hb.1 (by
+    rw [ha.2, hb.2, ← Int.natCast_mul, Int.natAbs_natCast]; exact hm)
+  rw [ha.2, hb.2, ← Int.natCast_mul, rqI_natCast] at h
+  exact h
+
+theorem unit_real : ((unit : Nat) : ℝ) = 2 ^ 1074 := by
+  rw [unit_eq, Nat.cast_pow, Nat.cast_ofNat]
+
+/-- two-sided `Nat` relative bounds as a real absolute-value bound -/
+theorem abs_of_nat_bounds {a b : Nat} (h1 : 2 ^ 53 * a ≤ 2 ^ 53 * b + b) (h2 : 2 ^ 53 * b ≤ 2 ^ 53 * a + b) :
+    (2 : ℝ) ^ 53 * |(a : ℝ) - (b : ℝ)| ≤ (b : ℝ) := by
+  have c1 : (2 : ℝ) ^ 53 * (a : ℝ) ≤ 2 ^ 53 * (b : ℝ) + (b : ℝ) := by exact_mod_cast h1
+  have c2 : (2 : ℝ) ^ 53 * (b : ℝ) ≤ 2 ^ 53 * (a : ℝ) + (b : ℝ) := by exact_mod_cast h2
+  rcases abs_cases ((a : ℝ) - (b : ℝ)) with ⟨e, _⟩ | ⟨e, _⟩ <;> rw [e] <;> linarith
+
+/-- the first half of `TwoFloat.sqrt`: `r = RN(√hi)`, `x' = RN(1/r)`, `y = RN(hi·x')` -/
+theorem sqrt_xy {H : Nat} (hlo : 2 ^ 174 ≤ H) (hhi : H ≤ 2 ^ 2074) :
+    ∃ r X Y : Nat,
+      F64.sqrt (fin false H) = fin false r ∧
+      IsVal (F64.recip (fin false r)) (X : Int) ∧
+      IsVal (F64.mul (fin false H) (F64.recip (fin false r))) (Y : Int) ∧
+      2 ^ 572 ≤ X ∧ X ≤ 2 ^ 1526 ∧
+      (2 : ℝ) ^ 624 ≤ Real.sqrt ((H : ℝ) * (unit : ℝ)) ∧ Real.sqrt ((H : ℝ) * (unit : ℝ)) ≤ 2 ^ 1574 ∧
+      2 ^ 53 * |(r : ℝ) - Real.sqrt ((H : ℝ) * (unit : ℝ))| ≤ Real.sqrt ((H : ℝ) * (unit : ℝ)) ∧
+      2 ^ 53 * |(X : ℝ) * (r : ℝ) - (unit : ℝ) ^ 2| ≤ (unit : ℝ) ^ 2 ∧
+      2 ^ 53 * |(Y : ℝ) * (unit : ℝ) - (H : ℝ) * (X : ℝ)| ≤ (H : ℝ) * (X : ℝ) := by
+  have hH0 : 0 < H := lt_of_lt_of_le (by positivity) hlo
+  obtain ⟨r, hr, -, hrerr⟩ := sqrt_real_err H hH0
+  have hU : (0 : ℝ) < (unit : ℝ) := by exact_mod_cast unit_pos
+  have hHr : (0 : ℝ) < (H : ℝ) := by exact_mod_cast hH0
+  have hloR : (2 : ℝ) ^ 174 ≤ (H : ℝ) := by exact_mod_cast hlo
+  have hhiR : (H : ℝ) ≤ 2 ^ 2074 := by exact_mod_cast hhi
+  have hSh2 : Real.sqrt ((H : ℝ) * (unit : ℝ)) ^ 2 = (H : ℝ) * (unit : ℝ) := Real.sq_sqrt (by positivity)
+  have hShl : (2 : ℝ) ^ 624 ≤ Real.sqrt ((H : ℝ) * (unit : ℝ)) := by
+    apply Real.le_sqrt_of_sq_le
+    rw [unit_real]
+    calc ((2 : ℝ) ^ 624) ^ 2 = 2 ^ 174 * 2 ^ 1074 := by rw [← pow_mul, ← pow_add]
+      _ ≤ (H : ℝ) * 2 ^ 1074 := mul_le_mul_of_nonneg_right hloR (by positivity)
+  have hShu : Real.sqrt ((H : ℝ) * (unit : ℝ)) ≤ 2 ^ 1574 := by
+    rw [Real.sqrt_le_left (by positivity), unit_real]
+    calc (H : ℝ) * 2 ^ 1074 ≤ 2 ^ 2074 * 2 ^ 1074 := mul_le_mul_of_nonneg_right hhiR (by positivity)
+      _ = ((2 : ℝ) ^ 1574) ^ 2 := by rw [← pow_mul, ← pow_add]
+  generalize hSh : Real.sqrt ((H : ℝ) * (unit : ℝ)) = Sh at *
+  have hSh0 : 0 < Sh := lt_of_lt_of_le (by positivity) hShl
+  -- range of r
+  have a1 : |(r : ℝ) - Sh| ≤ (1 / 2 ^ 53) * Sh := by linarith
+  obtain ⟨a1l, a1u⟩ := abs_le.1 a1
+  have hr1 : 2 ^ 622 ≤ r := by
+    have : (2 : ℝ) ^ 622 ≤ (r : ℝ) := by
+      have e : (2 : ℝ) ^ 624 = 4 * 2 ^ 622 := by rw [show (624 : ℕ) = 622 + 2 by norm_num, pow_add]; ring
+      have hp : (0 : ℝ) < 2 ^ 622 := by positivity
+      rw [e] at hShl
+      generalize (2 : ℝ) ^ 622 = P at *
+      linarith
+    exact_mod_cast this
+  have hr2 : r ≤ 2 ^ 1576 := by
+    have : (r : ℝ) ≤ 2 ^ 1576 := by
+      have e : (2 : ℝ) ^ 1576 = 4 * 2 ^ 1574 := by rw [show (1576 : ℕ) = 1574 + 2 by norm_num, pow_add]; ring
+      have hp : (0 : ℝ) < 2 ^ 1574 := by positivity
+      rw [e]
+      generalize (2 : ℝ) ^ 1574 = P at *
+      linarith
+    exact_mod_cast this
+  obtain ⟨hX, hX1, hX2, hXa, hXb⟩ := recip_pos hr1 hr2
+  generalize roundQ (unit * unit) r = X at *
+  have h2 : 2 ^ 53 * |(X : ℝ) * (r : ℝ) - (unit : ℝ) ^ 2| ≤ (unit : ℝ) ^ 2 := by
+    have := abs_of_nat_bounds hXa hXb
+    push_cast at this
+    rw [← pow_two] at this
+    exact this
+  -- magnitude of H * X
+  obtain ⟨hX0, hx⟩ := SqrtReal.norm_x hU hSh0 hrerr h2
+  obtain ⟨hHX1, hHX2⟩ := SqrtReal.hx_range hU hSh0 hSh2 hx
+  have hSU : 0 < Sh * (unit : ℝ) := mul_pos hSh0 hU
+  have hn1 : 2 ^ 52 * unit ≤ H * X := by
+    have : (2 : ℝ) ^ 52 * (unit : ℝ) ≤ (H : ℝ) * (X : ℝ) := by
+      have h53 : (2 : ℝ) ^ 53 ≤ Sh :=
+        le_trans (pow_le_pow_right₀ (by norm_num) (by norm_num)) hShl
+      have h : (2 : ℝ) ^ 53 * (unit : ℝ) ≤ Sh * (unit : ℝ) := mul_le_mul_of_nonneg_right h53 hU.le
+      generalize Sh * (unit : ℝ) = SU at *
+      generalize (H : ℝ) * (X : ℝ) = HX at *
+      generalize (unit : ℝ) = U' at *
+      linarith
+    exact_mod_cast this
+  have hn2 : H * X ≤ 2 ^ 1575 * unit := by
+    have : (H : ℝ) * (X : ℝ) ≤ 2 ^ 1575 * (unit : ℝ) := by
+      have h : Sh * (unit : ℝ) ≤ 2 ^ 1574 * (unit : ℝ) := mul_le_mul_of_nonneg_right hShu hU.le
+      have e : (2 : ℝ) ^ 1575 = 2 * 2 ^ 1574 := by rw [show (1575 : ℕ) = 1574 + 1 by norm_num, pow_succ]; ring
+      rw [e]
+      generalize Sh * (unit : ℝ) = SU at *
+      generalize (H : ℝ) * (X : ℝ) = HX at *
+      have hp : (0 : ℝ) < 2 ^ 1574 * (unit : ℝ) := by positivity
+      have e2 : (2 : ℝ) * 2 ^ 1574 * (unit : ℝ) = 2 * (2 ^ 1574 * (unit : ℝ)) := by ring
+      rw [e2]
+      generalize (2 : ℝ) ^ 1574 * (unit : ℝ) = PU at *
+      linarith
+    exact_mod_cast this
+  have hYm : roundQ (H * X) unit ≤ maxFin :=
+    le_trans (roundQ_le_of_le unit_pos (rep_two_pow 1575) hn2)
+      (le_trans (Nat.pow_le_pow_right (by norm_num) (by norm_num)) two_pow_2097_le_maxFin)
+  have hY := mul_pos_val (a := fin false H) (b := F64.recip (fin false r)) ⟨rfl, rfl⟩ hX hYm
+  obtain ⟨hYa, hYb⟩ := roundQ_rel_bounds unit_pos hn1
+  refine ⟨r, X, _, hr, hX, hY, hX1, hX2, hShl, hShu, hrerr, h2, ?_⟩
+  have := abs_of_nat_bounds hYa hYb
+  push_cast at this
+  exact this
+
+theorem hi_pos_form {x : TwoFloat} (hv : x.Valid) (hpos : 0 < x.V) : ∃ H : Nat, 0 < H ∧ x.hi = fin false H := by
+  have h1 : 0 < x.hi.toInt := by rw [hv.hi_toInt]; exact roundFacts.rnI_pos hpos
+  obtain ⟨s, n, hsn⟩ := is_finite_iff.mp hv.1
+  rw [hsn] at h1 ⊢
+  cases s
+  · exact ⟨n, by simpa [toInt] using h1, rfl⟩
+  · exfalso; simp [toInt] at h1; omega
+
+theorem rnI_rel_err (v : Int) : 2 ^ 53 * |rnI v - v| ≤ |v| := by
+  rw [abs_rnI_sub]
+  calc 2 ^ 53 * |((rn53 v.natAbs : Nat) : Int) - ((v.natAbs : Nat) : Int)| ≤ ((v.natAbs : Nat) : Int) :=
+        rn53_rel_err v.natAbs
+    _ = |v| := Int.natCast_natAbs v
+
+/-- multiplication by `0.5` is exact on normal numbers -/
+theorem mul_half {a : F64} {X : Nat} (ha : IsVal a (X : Int)) (hw : a.WF) (hX : 2 ^ 53 ≤ X) :
+    ∃ X2 : Nat, X = 2 * X2 ∧ IsVal (F64.mul a (f64lit 0x3fe0000000000000)) (X2 : Int) := by
+  have hrep : Rep X := by
+    have := hw.repI; rw [ha.2] at this; exact repI_natCast.1 this
+  have hd : 2 ^ 1 ∣ X := hrep.dvd_of_le (e := 1) (by
+    calc 2 ^ 52 * 2 ^ 1 = 2 ^ 53 := by norm_num
+      _ ≤ X := hX)
+  obtain ⟨X2, hX2⟩ := hd
+  have hX2' : X = X2 * 2 ^ 1 := by omega
+  have hrep2 : Rep X2 := by rw [hX2'] at hrep; exact rep_mul_pow2_iff.1 hrep
+  refine ⟨X2, by omega, ?_⟩
+  rw [half_eq]
+  have hm : X ≤ maxFin := by
+    have := hw.natAbs_toInt_le; rw [ha.2, Int.natAbs_natCast] at this; exact this
+  have e : (fin false (2 ^ 1073)).toInt = ((2 ^ 1073 : Nat) : Int) := rfl
+  refine mul_exact ha.1 rfl (q := (X2 : Int)) ?_ (repI_natCast.2 hrep2) ?_
+  · rw [ha.2, e, unit_eq]
+    have : (2 : Nat) ^ 1074 = 2 * 2 ^ 1073 := by rw [show (1074 : Nat) = 1073 + 1 by norm_num, pow_succ]; ring
+    rw [this, hX2']
+    push_cast; ring
+  · rw [abs_of_nonneg (Int.natCast_nonneg _)]
+    have : X2 ≤ maxFin := by omega
+    exact_mod_cast this
+
+/-- the second half of `TwoFloat.sqrt`: the double-word Newton correction -/
+theorem sqrt_tail {x : TwoFloat} {xr y : F64} {H X Y : Nat} {r : ℝ}
+    (hv : x.Valid) (hw : x.WF) (hpos : 0 < x.V) (hxhi : x.hi.toInt = (H : Int)) (hhi : H ≤ 2 ^ 2074)
+    (hXv : IsVal xr (X : Int)) (hXw : xr.WF) (hYv : IsVal y (Y : Int)) (hYw : y.WF)
+    (hX1 : 2 ^ 572 ≤ X)
+    (hShl : (2 : ℝ) ^ 624 ≤ Real.sqrt ((H : ℝ) * (unit : ℝ)))
+    (hShu : Real.sqrt ((H : ℝ) * (unit : ℝ)) ≤ 2 ^ 1574)
+    (e1 : 2 ^ 53 * |r - Real.sqrt ((H : ℝ) * (unit : ℝ))| ≤ Real.sqrt ((H : ℝ) * (unit : ℝ)))
+    (e2 : 2 ^ 53 * |(X : ℝ) * r - (unit : ℝ) ^ 2| ≤ (unit : ℝ) ^ 2)
+    (e3 : 2 ^ 53 * |(Y : ℝ) * (unit : ℝ) - (H : ℝ) * (X : ℝ)| ≤ (H : ℝ) * (X : ℝ)) :
+    (TwoFloat.new_add y (F64.mul (x -. TwoFloat.new_mul y y).hi (F64.mul xr (f64lit 0x3fe0000000000000)))).Valid ∧
+    (TwoFloat.new_add y (F64.mul (x -. TwoFloat.new_mul y y).hi (F64.mul xr (f64lit 0x3fe0000000000000)))).WF ∧
+    2 ^ 106 * |(((TwoFloat.new_add y (F64.mul (x -. TwoFloat.new_mul y y).hi
+        (F64.mul xr (f64lit 0x3fe0000000000000)))).V : Int) : ℝ) - Real.sqrt ((x.V : ℝ) * (unit : ℝ))|
+      ≤ 21 * Real.sqrt ((x.V : ℝ) * (unit : ℝ)) := by
+  have hU : (0 : ℝ) < (unit : ℝ) := by exact_mod_cast unit_pos
+  have hShpos : (0 : ℝ) < Real.sqrt ((H : ℝ) * (unit : ℝ)) := lt_of_lt_of_le (by positivity) hShl
+  have hH0r : (0 : ℝ) < (H : ℝ) := by
+    by_contra hc
+    have : (H : ℝ) = 0 := le_antisymm (not_lt.1 hc) (Nat.cast_nonneg H)
+    rw [this, zero_mul, Real.sqrt_zero] at hShpos
+    exact lt_irrefl _ hShpos
+  have hSh2 : Real.sqrt ((H : ℝ) * (unit : ℝ)) ^ 2 = (H : ℝ) * (unit : ℝ) := Real.sq_sqrt (by positivity)
+  -- the low word
+  have hL : (2 : Int) ^ 53 * |x.lo.toInt| ≤ (H : Int) := by
+    have := two_pow_mul_abs_le_of_half_ulp hv.two_mul_abs_lo_le
+    rw [hxhi, abs_of_nonneg (Int.natCast_nonneg H)] at this
+    exact this
+  have hVe : x.V = (H : Int) + x.lo.toInt := by unfold TwoFloat.V; rw [hxhi]
+  have hVr : ((x.V : Int) : ℝ) = (H : ℝ) + ((x.lo.toInt : Int) : ℝ) := by rw [hVe]; push_cast; ring
+  have hLr : (2 : ℝ) ^ 53 * |((x.lo.toInt : Int) : ℝ)| ≤ (H : ℝ) := by exact_mod_cast hL
+  have hVpos : (0 : ℝ) < ((x.V : Int) : ℝ) := by exact_mod_cast hpos
+  have hS2' : Real.sqrt (((x.V : Int) : ℝ) * (unit : ℝ)) ^ 2 = ((x.V : Int) : ℝ) * (unit : ℝ) :=
+    Real.sq_sqrt (by positivity)
+  have hS2 : Real.sqrt (((x.V : Int) : ℝ) * (unit : ℝ)) ^ 2 = ((H : ℝ) + ((x.lo.toInt : Int) : ℝ)) * (unit : ℝ) := by
+    rw [hS2', hVr]
+  have hS0 : 0 < Real.sqrt (((x.V : Int) : ℝ) * (unit : ℝ)) := Real.sqrt_pos.2 (by positivity)
+  have hbig : (2 : ℝ) ^ 107 ≤ Real.sqrt (((x.V : Int) : ℝ) * (unit : ℝ)) := by
+    apply Real.le_sqrt_of_sq_le
+    have h1 : (1 : ℝ) ≤ ((x.V : Int) : ℝ) := by
+      have : (1 : Int) ≤ x.V := hpos
+      exact_mod_cast this
+    rw [unit_real]
+    calc ((2 : ℝ) ^ 107) ^ 2 = 2 ^ 214 := by rw [← pow_mul]
+      _ ≤ 2 ^ 1074 := pow_le_pow_right₀ (by norm_num) (by norm_num)
+      _ = 1 * 2 ^ 1074 := (one_mul _).symm
+      _ ≤ ((x.V : Int) : ℝ) * 2 ^ 1074 := mul_le_mul_of_nonneg_right h1 (by positivity)
+  generalize hSh : Real.sqrt ((H : ℝ) * (unit : ℝ)) = Sh at *
+  generalize hS : Real.sqrt (((x.V : Int) : ℝ) * (unit : ℝ)) = S at *
+  -- magnitudes of `Y` and of the ideal correction
+  obtain ⟨hY1, hY2, hT⟩ := SqrtReal.y_range hU hH0r hShpos hSh2 hS0 hS2 hLr e1 e2 e3
+  obtain ⟨hX0, -⟩ := SqrtReal.norm_x hU hShpos e1 e2
+  have hYlo : 2 ^ 623 ≤ Y := by
+    have : (2 : ℝ) ^ 623 ≤ (Y : ℝ) := by
+      have e : (2 : ℝ) ^ 624 = 2 * 2 ^ 623 := by rw [show (624 : ℕ) = 623 + 1 by norm_num, pow_succ]; ring
+      have hp : (0 : ℝ) < 2 ^ 623 := by positivity
+      rw [e] at hShl
+      generalize (2 : ℝ) ^ 623 = P at *
+      linarith
+    exact_mod_cast this
+  have hYhi : Y ≤ 2 ^ 1575 := by
+    have : (Y : ℝ) ≤ 2 ^ 1575 := by
+      have e : (2 : ℝ) ^ 1575 = 2 * 2 ^ 1574 := by rw [show (1575 : ℕ) = 1574 + 1 by norm_num, pow_succ]; ring
+      have hp : (0 : ℝ) < 2 ^ 1574 := by positivity
+      rw [e]
+      generalize (2 : ℝ) ^ 1574 = P at *
+      linarith
+    exact_mod_cast this
+  -- the exact square `P = y²`
+  have hYY1 : 2 ^ 1188 ≤ Y * Y :=
+    calc 2 ^ 1188 ≤ 2 ^ 623 * 2 ^ 623 := by rw [← Nat.pow_add]; exact Nat.pow_le_pow_right (by norm_num) (by norm_num)
+      _ ≤ Y * Y := Nat.mul_le_mul hYlo hYlo
+  have hYY2 : Y * Y ≤ 2 ^ 3150 :=
+    calc Y * Y ≤ 2 ^ 1575 * 2 ^ 1575 := Nat.mul_le_mul hYhi hYhi
+      _ = 2 ^ 3150 := by rw [← Nat.pow_add]
+  have hyy : y.toInt * y.toInt = ((Y * Y : Nat) : Int) := by rw [hYv.2]; push_cast; ring
+  obtain ⟨p1, p2, p3, p4⟩ := new_mul_spec hYv.1 hYv.1 hYw hYw (Or.inr (by
+    rw [hyy, abs_of_nonneg (Int.natCast_nonneg _)]
+    constructor
+    · exact_mod_cast hYY1
+    · have : Y * Y < 2 ^ 3171 := lt_of_le_of_lt hYY2 (Nat.pow_lt_pow_right (by norm_num) (by norm_num))
+      exact_mod_cast this))
+  have hPhi : (TwoFloat.new_mul y y).hi.toInt.natAbs < 2 ^ 2094 := by
+    have h : |rqI (y.toInt * y.toInt) unit| ≤ 2 ^ 2076 := by
+      apply rqI_abs_le 2076 unit_pos
+      rw [hyy, abs_of_nonneg (Int.natCast_nonneg _), unit_eq]
+      have : Y * Y ≤ 2 ^ 2076 * 2 ^ 1074 := by rw [← Nat.pow_add]; exact hYY2
+      exact_mod_cast this
+    rw [← p1] at h
+    have h2 : (TwoFloat.new_mul y y).hi.toInt.natAbs ≤ 2 ^ 2076 := natAbs_le_of_abs_le (by exact_mod_cast h)
+    exact lt_of_le_of_lt h2 (Nat.pow_lt_pow_right (by norm_num) (by norm_num))
+  have hxhi' : x.hi.toInt.natAbs < 2 ^ 2094 := by
+    rw [hxhi, Int.natAbs_natCast]
+    exact lt_of_le_of_lt hhi (Nat.pow_lt_pow_right (by norm_num) (by norm_num))
+  have hD : (x -. TwoFloat.new_mul y y)
+      = arithmetic.impl_Sub_rTwoFloat_for_rTwoFloat.sub x (TwoFloat.new_mul y y) := rfl
+  rw [hD]
+  obtain ⟨dV, dB⟩ := TwoFloat.sub_tt_bound hv hw p3 p4 hxhi' hPhi
+  generalize arithmetic.impl_Sub_rTwoFloat_for_rTwoFloat.sub x (TwoFloat.new_mul y y) = D at *
+  have h5i : (2 : Int) ^ 53 * |D.hi.toInt - D.V| ≤ |D.V| := by
+    rw [dV.hi_toInt]; exact rnI_rel_err _
+  obtain ⟨X2, hX2e, hx2⟩ := mul_half hXv hXw (le_trans (Nat.pow_le_pow_right (by norm_num) (by norm_num)) hX1)
+  generalize F64.mul xr (f64lit 0x3fe0000000000000) = x2 at *
+  -- real versions
+  have hX2r : (X2 : ℝ) = (X : ℝ) / 2 := by rw [hX2e]; push_cast; ring
+  have hX2pos : (0 : ℝ) < (X : ℝ) / 2 := by positivity
+  have hPr : (((TwoFloat.new_mul y y).V : Int) : ℝ) * (unit : ℝ) = (Y : ℝ) ^ 2 := by
+    have : (TwoFloat.new_mul y y).V * (unit : Int) = ((Y * Y : Nat) : Int) := by rw [p2, hyy]
+    have h : (((TwoFloat.new_mul y y).V : Int) : ℝ) * (unit : ℝ) = ((Y * Y : Nat) : ℝ) := by exact_mod_cast this
+    rw [h]; push_cast; ring
+  have hQ : S ^ 2 - (Y : ℝ) ^ 2 = (((x.V : Int) : ℝ) - (((TwoFloat.new_mul y y).V : Int) : ℝ)) * (unit : ℝ) := by
+    rw [hS2', ← hPr]; ring
+  have h4r : (2 : ℝ) ^ 159 * |((D.V : Int) : ℝ) * (unit : ℝ) - (S ^ 2 - (Y : ℝ) ^ 2)|
+      ≤ (3 * 2 ^ 53 + 13) * |S ^ 2 - (Y : ℝ) ^ 2| := by
+    have h : |((D.V : Int) : ℝ) - (((x.V : Int) : ℝ) - (((TwoFloat.new_mul y y).V : Int) : ℝ))| * 2 ^ 159
+        ≤ (3 * 2 ^ 53 + 13) * |((x.V : Int) : ℝ) - (((TwoFloat.new_mul y y).V : Int) : ℝ)| := by
+      exact_mod_cast dB
+    have e : ((D.V : Int) : ℝ) * (unit : ℝ) - (S ^ 2 - (Y : ℝ) ^ 2)
+        = (((D.V : Int) : ℝ) - (((x.V : Int) : ℝ) - (((TwoFloat.new_mul y y).V : Int) : ℝ))) * (unit : ℝ) := by
+      rw [hQ]; ring
+    rw [e, hQ, abs_mul, abs_mul, abs_of_pos hU]
+    have := mul_le_mul_of_nonneg_right h hU.le
+    linarith
+  have h5r : (2 : ℝ) ^ 53 * |((D.hi.toInt : Int) : ℝ) - ((D.V : Int) : ℝ)| ≤ |((D.V : Int) : ℝ)| := by
+    exact_mod_cast h5i
+  -- magnitude of the correction
+  have hdh := SqrtReal.dh_bound hU hX2pos h4r h5r
+  have hb : |D.hi.toInt * (X2 : Int)| ≤ 2 ^ 1524 * (unit : Int) := by
+    have : |((D.hi.toInt : Int) : ℝ) * ((X : ℝ) / 2)| ≤ 2 ^ 1524 * (unit : ℝ) := by
+      have e : (2 : ℝ) ^ 1574 = 2 ^ 50 * 2 ^ 1524 := by rw [← pow_add]
+      rw [e] at hShu
+      have hp : (0 : ℝ) < 2 ^ 1524 := by positivity
+      have hSU : Sh * (unit : ℝ) ≤ 2 ^ 50 * 2 ^ 1524 * (unit : ℝ) := mul_le_mul_of_nonneg_right hShu hU.le
+      have hSUU := mul_le_mul_of_nonneg_right hSU hU.le
+      have hg : |((D.hi.toInt : Int) : ℝ) * ((X : ℝ) / 2)| * (unit : ℝ) ≤ 2 ^ 1524 * (unit : ℝ) * (unit : ℝ) := by
+        generalize (2 : ℝ) ^ 1524 = P at *
+        nlinarith
+      exact le_of_mul_le_mul_right hg hU
+    rw [← hX2r] at this
+    exact_mod_cast this
+  have hcfin : roundQ (D.hi.toInt * x2.toInt).natAbs unit ≤ maxFin := by
+    rw [hx2.2]; exact roundQ_le_maxFin_of_abs_le 1524 (by norm_num) unit_pos hb
+  obtain ⟨hc1, hc2⟩ := mul_spec dV.1 hx2.1 hcfin
+  rw [hx2.2] at hc2
+  have hCabs : |rqI (D.hi.toInt * (X2 : Int)) unit| ≤ 2 ^ 1524 := rqI_abs_le 1524 unit_pos hb
+  have h6i := rqI_err_gen (D.hi.toInt * (X2 : Int)) unit_pos
+  -- the final 2Sum
+  obtain ⟨-, q2, q3, q4⟩ := new_add_spec hYv.1 hc1 hYw (mul_WF _ _)
+    (by
+      rw [hYv.2, abs_of_nonneg (Int.natCast_nonneg _)]
+      have h1 : (2 : Int) * (Y : Int) ≤ 2 ^ 1576 := by
+        have : 2 * Y ≤ 2 ^ 1576 := by
+          calc 2 * Y ≤ 2 * 2 ^ 1575 := Nat.mul_le_mul_left _ hYhi
+            _ = 2 ^ 1576 := by rw [show (1576 : ℕ) = 1575 + 1 by norm_num, pow_succ]; ring
+        exact_mod_cast this
+      exact le_trans h1 (two_pow_le_maxFin_int (by norm_num)))
+    (by
+      rw [hc2]
+      have h1 : (2 : Int) * |rqI (D.hi.toInt * (X2 : Int)) unit| ≤ 2 ^ 1525 := by
+        have : (2 : Int) ^ 1525 = 2 * 2 ^ 1524 := by rw [show (1525 : ℕ) = 1524 + 1 by norm_num, pow_succ]; ring
+        rw [this]; linarith
+      exact le_trans h1 (two_pow_le_maxFin_int (by norm_num)))
+  refine ⟨q3, q4, ?_⟩
+  rw [q2, hYv.2, hc2]
+  generalize rqI (D.hi.toInt * (X2 : Int)) unit = C at *
+  have h6r : (2 : ℝ) ^ 53 * |((C : Int) : ℝ) * (unit : ℝ) - ((D.hi.toInt : Int) : ℝ) * ((X : ℝ) / 2)|
+      ≤ 2 ^ 52 * (unit : ℝ) + |((D.hi.toInt : Int) : ℝ) * ((X : ℝ) / 2)| := by
+    rw [← hX2r]; exact_mod_cast h6i
+  have hC := SqrtReal.corr_err hU hX2pos h4r h5r h6r
+  have key := SqrtReal.newton_denorm hU hH0r hShpos hSh2 hS0 hS2 hLr e1 e2 e3 hC hbig
+  push_cast
+  exact key
+
+end F64
+
+namespace TwoFloat
+
+open F64
+
+/-- `TwoFloat.sqrt` on an argument with positive high word runs the generic (Karp–Markstein) branch -/
+theorem sqrt_eq_of_hi_pos (x : TwoFloat) (hf : x.hi.is_finite = true) (hpos : 0 < x.hi.toInt) :
+    TwoFloat.sqrt x =
+      TwoFloat.new_add (F64.mul x.hi (F64.recip (F64.sqrt x.hi)))
+        (F64.mul (x -. TwoFloat.new_mul (F64.mul x.hi (F64.recip (F64.sqrt x.hi)))
+            (F64.mul x.hi (F64.recip (F64.sqrt x.hi)))).hi
+          (F64.mul (F64.recip (F64.sqrt x.hi)) (f64lit 0x3fe0000000000000))) := by
+  have hlt : (x.hi <. f64lit 0) = false := by
+    rw [rlt_eq, ← lt_eq_isLt, f64lit_zero, Bool.eq_false_iff]
+    intro h
+    have := (lt_iff_toInt hf rfl).1 h
+    have e : (fin false 0).toInt = 0 := rfl
+    rw [e] at this
+    omega
+  have heq : (x.hi ==. f64lit 0) = false := by
+    rw [req_eq, f64lit_zero, Bool.eq_false_iff]
+    intro h
+    have := (eq_zero_iff hf).1 h
+    omega
+  rw [C13.sqrt_general x (by rw [hlt, heq]; rfl) (by rw [heq]; rfl)]
+
+/-- **`TwoFloat.sqrt`, value level.**  For a valid, well-formed `x > 0` with high word in `[2^-900, 2^1000]` the result
+is a valid well-formed pair whose value `R` (scaled by `2^1074`) satisfies `|R - √(x.V·2^1074)| ≤ 21·2^-106·√(x.V·2^1074)`,
+i.e. (dividing by `2^1074`) the relative error against the exact real square root is at most `21 u²`. -/
+theorem sqrt_val {x : TwoFloat} (hv : x.Valid) (hw : x.WF) (hpos : 0 < x.V)
+    (hlo : 2 ^ 174 ≤ x.hi.toInt.natAbs) (hhi : x.hi.toInt.natAbs ≤ 2 ^ 2074) :
+    (TwoFloat.sqrt x).Valid ∧ (TwoFloat.sqrt x).WF ∧
+    2 ^ 106 * |(((TwoFloat.sqrt x).V : Int) : ℝ) - Real.sqrt ((x.V : ℝ) * (unit : ℝ))|
+      ≤ 21 * Real.sqrt ((x.V : ℝ) * (unit : ℝ)) := by
+  obtain ⟨H, hH0, hxhi⟩ := hi_pos_form hv hpos
+  have hxt : x.hi.toInt = (H : Int) := by rw [hxhi]; rfl
+  rw [hxt, Int.natAbs_natCast] at hlo hhi
+  obtain ⟨r, X, Y, hr, hX, hY, hX1, -, hShl, hShu, e1, e2, e3⟩ := sqrt_xy hlo hhi
+  have hpos' : 0 < x.hi.toInt := by rw [hxt]; exact_mod_cast hH0
+  rw [sqrt_eq_of_hi_pos x hv.1 hpos', hxhi, hr]
+  exact sqrt_tail hv hw hpos hxt hhi hX (div_WF _ _) hY (mul_WF _ _) hX1 hShl hShu e1 e2 e3
+
+end TwoFloat
+
+/-! ## 4. `hypot` -/
+
+namespace SqrtReal
+
+/-- `(x·x) + (y·y)` in double-word arithmetic: relative error `≤ 8.001 u²` of `W = xv² + yv²` -/
+theorem sumsq_err {xv yv av bv sv U : ℝ} (hU : 0 < U)
+    (ha : 2 ^ 159 * |av * U - xv ^ 2| ≤ (5 * 2 ^ 53 + 12) * xv ^ 2)
+    (hb : 2 ^ 159 * |bv * U - yv ^ 2| ≤ (5 * 2 ^ 53 + 12) * yv ^ 2)
+    (hs : 2 ^ 159 * |sv - (av + bv)| ≤ (3 * 2 ^ 53 + 13) * |av + bv|) :
+    |sv * U - (xv ^ 2 + yv ^ 2)| ≤ 8.001 * (1 / 2 ^ 106) * (xv ^ 2 + yv ^ 2) ∧
+    |av * U| ≤ 1.001 * xv ^ 2 ∧ |bv * U| ≤ 1.001 * yv ^ 2 := by
+  have hx2 := sq_nonneg xv
+  have hy2 := sq_nonneg yv
+  have ha' : |av * U - xv ^ 2| ≤ ((5 * 2 ^ 53 + 12) / 2 ^ 159) * xv ^ 2 := by
+    rw [div_mul_eq_mul_div, le_div_iff₀ (by positivity)]; linarith
+  have hb' : |bv * U - yv ^ 2| ≤ ((5 * 2 ^ 53 + 12) / 2 ^ 159) * yv ^ 2 := by
+    rw [div_mul_eq_mul_div, le_div_iff₀ (by positivity)]; linarith
+  have hs' : |sv - (av + bv)| ≤ ((3 * 2 ^ 53 + 13) / 2 ^ 159) * |av + bv| := by
+    rw [div_mul_eq_mul_div, le_div_iff₀ (by positivity)]; linarith
+  obtain ⟨a1, a2⟩ := abs_le.1 ha'
+  obtain ⟨b1, b2⟩ := abs_le.1 hb'
+  have hab : |(av + bv) * U| ≤ (1 + (5 * 2 ^ 53 + 12) / 2 ^ 159) * (xv ^ 2 + yv ^ 2) := by
+    rw [abs_le]; constructor <;> nlinarith
+  have hsU : |(sv - (av + bv)) * U| ≤ ((3 * 2 ^ 53 + 13) / 2 ^ 159) * |(av + bv) * U| := by
+    rw [abs_mul, abs_mul, abs_of_pos hU]
+    calc |sv - (av + bv)| * U ≤ ((3 * 2 ^ 53 + 13) / 2 ^ 159) * |av + bv| * U :=
+          mul_le_mul_of_nonneg_right hs' hU.le
+      _ = _ := by ring
+  obtain ⟨c1, c2⟩ := abs_le.1 (le_trans hsU (mul_le_mul_of_nonneg_left hab (by positivity)))
+  refine ⟨?_, ?_, ?_⟩
+  · rw [abs_le]; constructor <;> nlinarith
+  · rw [abs_le]; constructor <;> nlinarith
+  · rw [abs_le]; constructor <;> nlinarith
+
+/-- the square root of a relatively perturbed radicand -/
+theorem sqrt_perturb {A W ε : ℝ} (hW : 0 < W) (hε0 : 0 < ε) (hε : ε ≤ 1 / 2 ^ 20) (hA0 : 0 < A)
+    (h : |A - W| ≤ ε * W) :
+    |Real.sqrt A - Real.sqrt W| ≤ 0.5001 * ε * Real.sqrt W := by
+  have hsW : 0 < Real.sqrt W := Real.sqrt_pos.2 hW
+  have hsA : 0 < Real.sqrt A := Real.sqrt_pos.2 hA0
+  have e : (Real.sqrt A / Real.sqrt W) ^ 2 - 1 = (A - W) / W := by
+    rw [div_pow, Real.sq_sqrt hA0.le, Real.sq_sqrt hW.le]; field_simp
+  have h1 : |(Real.sqrt A / Real.sqrt W) ^ 2 - 1| ≤ ε := by
+    rw [e, abs_div, abs_of_pos hW, div_le_iff₀ hW]; exact h
+  have h2 := sqrt_near_one hε0 hε (div_pos hsA hsW) h1
+  have e2 : Real.sqrt A / Real.sqrt W - 1 = (Real.sqrt A - Real.sqrt W) / Real.sqrt W := by field_simp
+  rw [e2, abs_div, abs_of_pos hsW, div_le_iff₀ hsW] at h2
+  exact h2
+
+/-- `hypot`: from the three double-word operations and the `21u²` square root to `26u²` -/
+theorem hypot_real {xv yv av bv sv R U : ℝ} (hU : 0 < U) (hW : 0 < xv ^ 2 + yv ^ 2)
+    (ha : 2 ^ 159 * |av * U - xv ^ 2| ≤ (5 * 2 ^ 53 + 12) * xv ^ 2)
+    (hb : 2 ^ 159 * |bv * U - yv ^ 2| ≤ (5 * 2 ^ 53 + 12) * yv ^ 2)
+    (hs : 2 ^ 159 * |sv - (av + bv)| ≤ (3 * 2 ^ 53 + 13) * |av + bv|)
+    (hR : 2 ^ 106 * |R - Real.sqrt (sv * U)| ≤ 21 * Real.sqrt (sv * U)) :
+    2 ^ 106 * |R - Real.sqrt (xv ^ 2 + yv ^ 2)| ≤ 26 * Real.sqrt (xv ^ 2 + yv ^ 2) := by
+  obtain ⟨h1, -, -⟩ := sumsq_err hU ha hb hs
+  obtain ⟨h1l, h1u⟩ := abs_le.1 h1
+  have hA0 : 0 < sv * U := by nlinarith
+  have hp := sqrt_perturb (ε := 8.001 * (1 / 2 ^ 106)) hW (by positivity) (by norm_num) hA0 h1
+  obtain ⟨p1, p2⟩ := abs_le.1 hp
+  have hsW : 0 < Real.sqrt (xv ^ 2 + yv ^ 2) := Real.sqrt_pos.2 hW
+  generalize Real.sqrt (xv ^ 2 + yv ^ 2) = SW at *
+  generalize Real.sqrt (sv * U) = SA at *
+  have t : |R - SW| ≤ |R - SA| + |SA - SW| := by
+    have := abs_add_le (R - SA) (SA - SW)
+    rwa [sub_add_sub_cancel] at this
+  have hSA : SA ≤ 1.001 * SW := by nlinarith
+  have e : (2 : ℝ) ^ 106 * (0.5001 * (8.001 * (1 / 2 ^ 106)) * SW) = 0.5001 * 8.001 * SW := by
+    field_simp
+  nlinarith
+
+end SqrtReal
+
+namespace SqrtReal
+
+/-- magnitudes in `hypot` -/
+theorem hypot_ranges {xv yv av bv sv U P Q : ℝ} (hU : 0 < U) (hP : 0 < P) (hQ : 0 < Q)
+    (hx1 : P * U ≤ xv ^ 2) (hx2 : xv ^ 2 ≤ Q * U) (hy1 : P * U ≤ yv ^ 2) (hy2 : yv ^ 2 ≤ Q * U)
+    (h1 : |sv * U - (xv ^ 2 + yv ^ 2)| ≤ 8.001 * (1 / 2 ^ 106) * (xv ^ 2 + yv ^ 2))
+    (h2 : |av * U| ≤ 1.001 * xv ^ 2) (h3 : |bv * U| ≤ 1.001 * yv ^ 2) :
+    1.9 * P ≤ sv ∧ sv ≤ 2.1 * Q ∧ |av| ≤ 1.01 * Q ∧ |bv| ≤ 1.01 * Q := by
+  obtain ⟨a1, a2⟩ := abs_le.1 h1
+  have hPU : 0 < P * U := mul_pos hP hU
+  have hQU : 0 < Q * U := mul_pos hQ hU
+  have hn : (8.001 : ℝ) * (1 / 2 ^ 106) ≤ 0.001 := by norm_num
+  refine ⟨?_, ?_, ?_, ?_⟩
+  · apply le_of_mul_le_mul_right _ hU
+    nlinarith
+  · apply le_of_mul_le_mul_right _ hU
+    nlinarith
+  · apply le_of_mul_le_mul_right _ hU
+    rw [abs_mul, abs_of_pos hU] at h2
+    nlinarith
+  · apply le_of_mul_le_mul_right _ hU
+    rw [abs_mul, abs_of_pos hU] at h3
+    nlinarith
+
+/-- the square of the value of a valid pair against the range of its high word -/
+theorem sq_range {h l T : ℝ} (hT : 0 < T) (hl : 2 ^ 53 * |l| ≤ |h|) :
+    (T ≤ |h| → 0.98 * T ^ 2 ≤ (h + l) ^ 2) ∧ (|h| ≤ T → (h + l) ^ 2 ≤ 1.03 * T ^ 2) := by
+  have hl0 := abs_nonneg l
+  have t1 : |h| - |l| ≤ |h + l| := by
+    have := abs_sub_abs_le_abs_sub h (-l)
+    rwa [abs_neg, sub_neg_eq_add] at this
+  have t2 : |h + l| ≤ |h| + |l| := abs_add_le h l
+  have e : (h + l) ^ 2 = |h + l| ^ 2 := (sq_abs _).symm
+  constructor
+  · intro h1
+    rw [e]
+    have : 0.99 * T ≤ |h + l| := by linarith
+    have := pow_le_pow_left₀ (by positivity) this 2
+    nlinarith
+  · intro h1
+    rw [e]
+    have : |h + l| ≤ 1.01 * T := by linarith
+    have := pow_le_pow_left₀ (abs_nonneg _) this 2
+    nlinarith
+
+end SqrtReal
+
+namespace TwoFloat
+
+open F64
+
+/-- the real value of a valid pair with high word in `[2^-450, 2^450]`: range of its square -/
+theorem V_sq_range {x : TwoFloat} (hv : x.Valid)
+    (hx : 2 ^ 624 ≤ x.hi.toInt.natAbs ∧ x.hi.toInt.natAbs ≤ 2 ^ 1524) :
+    0.98 * 2 ^ 174 * (unit : ℝ) ≤ ((x.V : Int) : ℝ) ^ 2 ∧ ((x.V : Int) : ℝ) ^ 2 ≤ 1.03 * 2 ^ 1974 * (unit : ℝ) := by
+  have hl : (2 : Int) ^ 53 * |x.lo.toInt| ≤ |x.hi.toInt| := two_pow_mul_abs_le_of_half_ulp hv.two_mul_abs_lo_le
+  have hlr : (2 : ℝ) ^ 53 * |((x.lo.toInt : Int) : ℝ)| ≤ |((x.hi.toInt : Int) : ℝ)| := by exact_mod_cast hl
+  have h1 : (2 : ℝ) ^ 624 ≤ |((x.hi.toInt : Int) : ℝ)| := by
+    have : ((2 ^ 624 : Nat) : Int) ≤ |x.hi.toInt| := by rw [← Int.natCast_natAbs]; exact_mod_cast hx.1
+    exact_mod_cast this
+  have h2 : |((x.hi.toInt : Int) : ℝ)| ≤ (2 : ℝ) ^ 1524 := by
+    have : |x.hi.toInt| ≤ ((2 ^ 1524 : Nat) : Int) := by rw [← Int.natCast_natAbs]; exact_mod_cast hx.2
+    exact_mod_cast this
+  have eV : ((x.V : Int) : ℝ) = ((x.hi.toInt : Int) : ℝ) + ((x.lo.toInt : Int) : ℝ) := by
+    unfold TwoFloat.V; push_cast; ring
+  rw [eV, unit_real]
+  have e1 : (0.98 : ℝ) * 2 ^ 174 * 2 ^ 1074 = 0.98 * (2 ^ 624) ^ 2 := by rw [← pow_mul, mul_assoc, ← pow_add]
+  have e2 : (1.03 : ℝ) * 2 ^ 1974 * 2 ^ 1074 = 1.03 * (2 ^ 1524) ^ 2 := by rw [← pow_mul, mul_assoc, ← pow_add]
+  rw [e1, e2]
+  exact ⟨(SqrtReal.sq_range (by positivity) hlr).1 h1, (SqrtReal.sq_range (by positivity) hlr).2 h2⟩
+
+end TwoFloat
+
+namespace TwoFloat
+
+open F64
+
+theorem repI_two_pow (k : Nat) : RepI ((2 : Int) ^ k) := by
+  have : ((2 : Int) ^ k) = ((2 ^ k : Nat) : Int) := by push_cast; rfl
+  rw [this]; exact repI_natCast.2 (rep_two_pow k)
+
+/-- **`TwoFloat.hypot`, value level.**  For valid, well-formed `x`, `y` with high words of magnitude in
+`[2^-450, 2^450]`: the result is a valid pair within relative `26 u²` of `√(x² + y²)`
+(`5u² + 12u³` per square, `3u² + 13u³` for the sum, halved under the root, plus `21u²` for the root). -/
+theorem hypot_val {x y : TwoFloat} (hvx : x.Valid) (hwx : x.WF) (hvy : y.Valid) (hwy : y.WF)
+    (hx : 2 ^ 624 ≤ x.hi.toInt.natAbs ∧ x.hi.toInt.natAbs ≤ 2 ^ 1524)
+    (hy : 2 ^ 624 ≤ y.hi.toInt.natAbs ∧ y.hi.toInt.natAbs ≤ 2 ^ 1524) :
+    (TwoFloat.hypot x y).Valid ∧ (TwoFloat.hypot x y).WF ∧
+    2 ^ 106 * |(((TwoFloat.hypot x y).V : Int) : ℝ) - Real.sqrt (((x.V : Int) : ℝ) ^ 2 + ((y.V : Int) : ℝ) ^ 2)|
+      ≤ 26 * Real.sqrt (((x.V : Int) : ℝ) ^ 2 + ((y.V : Int) : ℝ) ^ 2) := by
+  have hU : (0 : ℝ) < (unit : ℝ) := by exact_mod_cast unit_pos
+  have hdef : TwoFloat.hypot x y = TwoFloat.sqrt (arithmetic.impl_Add_rTwoFloat_for_rTwoFloat.add
+      (arithmetic.impl_Mul_rTwoFloat_for_rTwoFloat.mul x x) (arithmetic.impl_Mul_rTwoFloat_for_rTwoFloat.mul y y)) := rfl
+  rw [hdef]
+  obtain ⟨aV, aB⟩ := TwoFloat.mul_tt_bound_5u2_12u3_partial hvx hwx hvx hwx hx hx
+  obtain ⟨bV, bB⟩ := TwoFloat.mul_tt_bound_5u2_12u3_partial hvy hwy hvy hwy hy hy
+  have aW := TwoFloat.mul_tt_WF x x
+  have bW := TwoFloat.mul_tt_WF y y
+  generalize arithmetic.impl_Mul_rTwoFloat_for_rTwoFloat.mul x x = a at *
+  generalize arithmetic.impl_Mul_rTwoFloat_for_rTwoFloat.mul y y = b at *
+  have ha : (2 : ℝ) ^ 159 * |((a.V : Int) : ℝ) * (unit : ℝ) - ((x.V : Int) : ℝ) ^ 2|
+      ≤ (5 * 2 ^ 53 + 12) * ((x.V : Int) : ℝ) ^ 2 := by
+    have h : |((a.V : Int) : ℝ) * (unit : ℝ) - ((x.V : Int) : ℝ) * ((x.V : Int) : ℝ)| * 2 ^ 159
+        ≤ (5 * 2 ^ 53 + 12) * |((x.V : Int) : ℝ) * ((x.V : Int) : ℝ)| := by exact_mod_cast aB
+    rw [abs_mul_self, ← pow_two] at h
+    linarith
+  have hb : (2 : ℝ) ^ 159 * |((b.V : Int) : ℝ) * (unit : ℝ) - ((y.V : Int) : ℝ) ^ 2|
+      ≤ (5 * 2 ^ 53 + 12) * ((y.V : Int) : ℝ) ^ 2 := by
+    have h : |((b.V : Int) : ℝ) * (unit : ℝ) - ((y.V : Int) : ℝ) * ((y.V : Int) : ℝ)| * 2 ^ 159
+        ≤ (5 * 2 ^ 53 + 12) * |((y.V : Int) : ℝ) * ((y.V : Int) : ℝ)| := by exact_mod_cast bB
+    rw [abs_mul_self, ← pow_two] at h
+    linarith
+  obtain ⟨hx1, hx2⟩ := V_sq_range hvx hx
+  obtain ⟨hy1, hy2⟩ := V_sq_range hvy hy
+  -- high words of the squares
+  have hP : (0 : ℝ) < 0.98 * 2 ^ 174 := by positivity
+  have hQ : (0 : ℝ) < 1.03 * 2 ^ 1974 := by positivity
+  have hab : ∀ sv : ℝ, (2 : ℝ) ^ 159 * |sv - (((a.V : Int) : ℝ) + ((b.V : Int) : ℝ))|
+      ≤ (3 * 2 ^ 53 + 13) * |((a.V : Int) : ℝ) + ((b.V : Int) : ℝ)| →
+      1.9 * (0.98 * 2 ^ 174) ≤ sv ∧ sv ≤ 2.1 * (1.03 * 2 ^ 1974) ∧
+        |((a.V : Int) : ℝ)| ≤ 1.01 * (1.03 * 2 ^ 1974) ∧ |((b.V : Int) : ℝ)| ≤ 1.01 * (1.03 * 2 ^ 1974) := by
+    intro sv hs
+    obtain ⟨k1, k2, k3⟩ := SqrtReal.sumsq_err hU ha hb hs
+    exact SqrtReal.hypot_ranges hU hP hQ hx1 hx2 hy1 hy2 k1 k2 k3
+  have habs : |((a.V : Int) : ℝ)| ≤ 2 ^ 1975 ∧ |((b.V : Int) : ℝ)| ≤ 2 ^ 1975 := by
+    obtain ⟨-, -, k3, k4⟩ := hab (((a.V : Int) : ℝ) + ((b.V : Int) : ℝ)) (by
+      rw [sub_self, abs_zero, mul_zero]; positivity)
+    have e : (2 : ℝ) ^ 1975 = 2 * 2 ^ 1974 := by rw [show (1975 : ℕ) = 1974 + 1 by norm_num, pow_succ]; ring
+    have hp : (0 : ℝ) < 2 ^ 1974 := by positivity
+    rw [e]
+    generalize (2 : ℝ) ^ 1974 = T at *
+    constructor <;> linarith
+  have hhi : ∀ t : TwoFloat, t.Valid → |((t.V : Int) : ℝ)| ≤ 2 ^ 1975 → t.hi.toInt.natAbs < 2 ^ 2094 := by
+    intro t tV ht
+    have h1 : |t.V| ≤ |(2 : Int) ^ 1975| := by
+      rw [abs_of_pos (by positivity : (0 : Int) < 2 ^ 1975)]
+      exact_mod_cast ht
+    have h2 := abs_rnI_le (repI_two_pow 1975) h1
+    rw [← tV.hi_toInt, abs_of_pos (by positivity : (0 : Int) < 2 ^ 1975)] at h2
+    have h3 : t.hi.toInt.natAbs ≤ 2 ^ 1975 := natAbs_le_of_abs_le (by exact_mod_cast h2)
+    exact lt_of_le_of_lt h3 (Nat.pow_lt_pow_right (by norm_num) (by norm_num))
+  obtain ⟨sV, sB⟩ := TwoFloat.add_tt_bound aV aW bV bW (hhi a aV habs.1) (hhi b bV habs.2)
+  have sW := TwoFloat.add_tt_WF a b
+  generalize arithmetic.impl_Add_rTwoFloat_for_rTwoFloat.add a b = s at *
+  have hs : (2 : ℝ) ^ 159 * |((s.V : Int) : ℝ) - (((a.V : Int) : ℝ) + ((b.V : Int) : ℝ))|
+      ≤ (3 * 2 ^ 53 + 13) * |((a.V : Int) : ℝ) + ((b.V : Int) : ℝ)| := by
+    have h : |((s.V : Int) : ℝ) - (((a.V : Int) : ℝ) + ((b.V : Int) : ℝ))| * 2 ^ 159
+        ≤ (3 * 2 ^ 53 + 13) * |((a.V : Int) : ℝ) + ((b.V : Int) : ℝ)| := by exact_mod_cast sB
+    linarith
+  obtain ⟨r1, r2, -, -⟩ := hab _ hs
+  have hs1 : (2 : Int) ^ 174 ≤ s.V := by
+    have : (2 : ℝ) ^ 174 ≤ ((s.V : Int) : ℝ) := by
+      have hp : (0 : ℝ) < 2 ^ 174 := by positivity
+      generalize (2 : ℝ) ^ 174 = T at *
+      linarith
+    exact_mod_cast this
+  have hs2 : s.V ≤ (2 : Int) ^ 1976 := by
+    have : ((s.V : Int) : ℝ) ≤ (2 : ℝ) ^ 1976 := by
+      have e : (2 : ℝ) ^ 1976 = 4 * 2 ^ 1974 := by rw [show (1976 : ℕ) = 1974 + 2 by norm_num, pow_add]; ring
+      have hp : (0 : ℝ) < 2 ^ 1974 := by positivity
+      rw [e]
+      generalize (2 : ℝ) ^ 1974 = T at *
+      linarith
+    exact_mod_cast this
+  have hspos : 0 < s.V := lt_of_lt_of_le (by positivity) hs1
+  have hsh1 : (2 : Int) ^ 174 ≤ s.hi.toInt := by
+    rw [sV.hi_toInt, ← rnI_of_repI (repI_two_pow 174)]; exact rnI_mono hs1
+  have hsh2 : s.hi.toInt ≤ (2 : Int) ^ 1976 := by
+    rw [sV.hi_toInt, ← rnI_of_repI (repI_two_pow 1976)]; exact rnI_mono hs2
+  have hn1 : 2 ^ 174 ≤ s.hi.toInt.natAbs := by
+    have : ((2 ^ 174 : Nat) : Int) ≤ ((s.hi.toInt.natAbs : Nat) : Int) := by
+      rw [Int.natCast_natAbs, abs_of_nonneg (le_trans (by positivity) hsh1)]; exact_mod_cast hsh1
+    exact_mod_cast this
+  have hn2 : s.hi.toInt.natAbs ≤ 2 ^ 2074 := by
+    have : ((s.hi.toInt.natAbs : Nat) : Int) ≤ ((2 ^ 1976 : Nat) : Int) := by
+      rw [Int.natCast_natAbs, abs_of_nonneg (le_trans (by positivity) hsh1)]; exact_mod_cast hsh2
+    have h : s.hi.toInt.natAbs ≤ 2 ^ 1976 := by exact_mod_cast this
+    exact le_trans h (Nat.pow_le_pow_right (by norm_num) (by norm_num))
+  obtain ⟨RV, RW, RB⟩ := sqrt_val sV sW hspos hn1 hn2
+  refine ⟨RV, RW, ?_⟩
+  have hW : (0 : ℝ) < ((x.V : Int) : ℝ) ^ 2 + ((y.V : Int) : ℝ) ^ 2 := by
+    have : (0 : ℝ) < 0.98 * 2 ^ 174 * (unit : ℝ) := by positivity
+    have := sq_nonneg ((y.V : Int) : ℝ)
+    linarith
+  exact SqrtReal.hypot_real hU hW ha hb hs RB
+
+end TwoFloat
